@@ -201,4 +201,16 @@ theorem src_k_degenerate_emission (pi h c kb lit mq nu : ℝ) (nonmol : List (Ki
   rw [srcEmissionK_eq]
   exact k_degenerate_emission (pcOf pi h c kb lit) nonmol sigma3 sigma ws dz dens temps nu (1 / mq) hdeg hw
 
+/-- **k_emission_without_molecules**, about the regenerated `evaluate_emission_ktables` with `molecule_absorption is None`
+    (no AbsorptionContribution in the list; the non-molecular entries of `model_contrib()`): the k-table path returns the
+    documented (unclamped) integral of the cross-section model over the same contributions, whatever k-tables are
+    installed (`molc`, `sk`, `w`, `ng` stand for what the code then does not read) -/
+theorem src_k_emission_without_molecules (pi h c kb lit mq nu : ℝ) (contribs : List (Kind × List ℝ))
+    (dz dens temps : List ℝ) (ng : ℕ) (molc : ℕ → ℕ → ℕ → ℕ → (ℕ → ℝ) → ℝ → (ℕ → ℝ) → ℝ) (sk : ℕ → ℕ → ℝ) (w : ℕ → ℝ) :
+    Gen.SrcC20.evaluate_emission_ktables nu ng kb pi h c lit (dispatchK contribs) (fn dz) (fn dens) false
+        molc mq temps.length contribs.length sk (fn temps) w
+      = intensityUncut (pcOf pi h c kb lit) dz dens temps (1 / mq) ⟨nu, contribs⟩ := by
+  rw [src_evaluate_emission_ktables_nomol]
+  exact k_emission_without_molecules (pcOf pi h c kb lit) contribs dz dens temps nu (1 / mq)
+
 end Taurex.C20SrcProps
